@@ -165,8 +165,17 @@ def to_number(value: JSValue) -> Union[int, float]:
         return _string_to_number(value)
     if isinstance(value, JSArray):
         return _string_to_number(to_string(value))
-    # TODO: Handle objects with valueOf
+    if isinstance(value, JSObject) and to_primitive_hook is not None:
+        # An object converts through its valueOf / toString (script code)
+        primitive = to_primitive_hook(value, "number")
+        if not isinstance(primitive, JSObject):
+            return to_number(primitive)
     return float("nan")
+
+
+# Set by the interpreter while it runs: (object, hint) -> primitive value, by calling the
+# object's valueOf/toString methods the way ToPrimitive does. None outside an evaluation.
+to_primitive_hook = None
 
 
 def norm_number(n: Union[int, float]) -> Union[int, float]:
@@ -311,7 +320,10 @@ def to_string(value: JSValue) -> str:
     if isinstance(value, JSArray):
         # Array.prototype.toString: join with commas
         return join_array(value, ",")
-    # TODO: Handle objects with toString
+    if isinstance(value, JSObject) and to_primitive_hook is not None:
+        primitive = to_primitive_hook(value, "string")
+        if not isinstance(primitive, JSObject):
+            return to_string(primitive)
     return "[object Object]"
 
 
